@@ -160,12 +160,41 @@ def unit_operand(rng, ring, p):
     return 1
 
 
+FM_PREC = {"f_f": (24, 24), "f_d": (24, 53), "d_d": (53, 53)}
+BF_PREC = {"bf": 24, "bd": 53}
+BI_BITS = {"bi32": 32, "bi64": 64}
+EX_PREC = {"ef": 24, "ed": 53}
+NO_MODEL_OPS = {"ru": ("inv", "invin", "div", "divin"),       # RecInt::inv_mod and mpz_invert belong to C06/C01
+                "zz": ("inv", "invin", "div", "divin", "isUnit")}
+
+
 def model_line(ring, p, op, a):
+    """the line for the extracted-model driver, or None when the call form is not modelled"""
+    args = " ".join(str(x) for x in a)
+    if op in ("mulpb2", "gcdext") and ring not in INT_RINGS:
+        return None
     if ring in INT_RINGS:
         s, c = ring.split("_")
         if op == "mulpb2":
             return None
-        return "int %d %d %d %d %s %s" % (ITY[s][0], ITY[s][1], ITY[c][0], p, op, " ".join(str(x) for x in a))
+        return "int %d %d %d %d %s %s" % (ITY[s][0], ITY[s][1], ITY[c][0], p, op, args)
+    if ring in FM_PREC:
+        return "fm %d %d %d %s %s" % (FM_PREC[ring][0], FM_PREC[ring][1], p, op, args)
+    if ring in BF_PREC:
+        return "bf %d %d %s %s" % (BF_PREC[ring], p, op, args)
+    if ring in BI_BITS:
+        return "bi %d %d %s %s" % (BI_BITS[ring], p, op, args)
+    if ring in EX_PREC:
+        return "ex %d %d %s %s" % (EX_PREC[ring], p, op, args)
+    if ring.startswith("ru"):
+        if op in NO_MODEL_OPS["ru"]:
+            return None
+        k, k2 = int(ring[2]), int(ring.split("_")[1])
+        return "ru %d %d %d %s %s" % (1 << k, 1 if k2 > k else 0, p, op, args)
+    if ring == "zz":
+        if op in NO_MODEL_OPS["zz"]:
+            return None
+        return "zz %d %s %s" % (p, op, args)
     return None
 
 
@@ -369,10 +398,10 @@ def main(tier, replay=None):
                                    "implementation differs from exact arithmetic mod p")
         if i in mout:
             mg = mout[i].strip()
-            if mg != got and nbroke < 20:
+            if mg != got and nbroke < 20 and (exp is None or got == exp or op == "gcdext"):   # impl != oracle is already a failing input
                 nbroke += 1
                 chk.broke("correspondence model/implementation differs on %s p=%d %s %s: model=%s impl=%s" % (ring, p, op, a, mg, got))
-            if exp is not None and op != "gcdext" and mg != exp and nbroke < 20:
+            if exp is not None and op != "gcdext" and got == exp and mg != exp and nbroke < 20:
                 nbroke += 1
                 chk.broke("extracted model differs from the specification oracle on %s p=%d %s %s: model=%s spec=%s" % (ring, p, op, a, mg, exp))
     if os.environ.get("C03_DEBUG"):
